@@ -165,6 +165,21 @@ def makeArray (dims contents : Obj) : Except Err Obj :=
       (if ds.length = 1 then .ok (.vec contents) else .ok (.arr dims contents))
     else .error .typeErr
 
+/-- keywords evaluate to themselves -/
+def isKeyword (s : String) : Bool := s.toList.head? == some ':'
+
+/-- the operand of `(quote x)` -/
+def quoteArg : Obj → Except Err Obj
+  | .cons x .nil => .ok x
+  | _ => .error .undefined
+
+/-- the two operands of `(make-array 'dims :element-type t :initial-contents 'contents)` -/
+def makeArrayArgs : Obj → Option (Obj × Obj)
+  | .cons (.cons (.sym "quote") (.cons dims .nil)) (.cons (.sym ":element-type") (.cons .t
+      (.cons (.sym ":initial-contents") (.cons (.cons (.sym "quote") (.cons c .nil)) .nil)))) =>
+    some (dims, c)
+  | _ => none
+
 mutual
   def eval : Obj → Except Err Obj
     | .nil => .ok .nil
@@ -177,49 +192,31 @@ mutual
     | .vec es => .ok (.vec es)
     | .arr d c => .ok (.arr d c)
     | .hash es => .ok (.hash es)
-    | .sym s => if s.startsWith ":" then .ok (.sym s) else .error .unbound
+    | .sym s => if isKeyword s then .ok (.sym s) else .error .unbound
     | .cons (.sym f) args =>
-      if f = "quote" then
-        match args with
-        | .cons x .nil => .ok x
-        | _ => .error .undefined
+      if f = "quote" then quoteArg args
       else if f = "list" then evalArgs args
-      else if f = "cons" then
-        match args with
-        | .cons a (.cons b .nil) =>
-          match eval a, eval b with
-          | .ok x, .ok y => .ok (.cons x y)
-          | .error e, _ => .error e
-          | _, .error e => .error e
-        | _ => .error .undefined
-      else if f = "append" then
-        match args with
-        | .cons a (.cons b .nil) =>
-          match eval a, eval b with
-          | .ok x, .ok y => appendChain x y
-          | .error e, _ => .error e
-          | _, .error e => .error e
-        | _ => .error .undefined
+      else if f = "cons" then evalTwo args >>= fun (x, y) => .ok (.cons x y)
+      else if f = "append" then evalTwo args >>= fun (x, y) => appendChain x y
       else if f = "make-array" then
-        match args with
-        | .cons (.cons (.sym "quote") (.cons dims .nil)) (.cons (.sym ":element-type") (.cons .t
-            (.cons (.sym ":initial-contents") (.cons (.cons (.sym "quote") (.cons c .nil)) .nil)))) =>
-          makeArray dims c
-        | _ => .error .undefined
-      else if f = "let" then
-        match args with
-        | .cons b fills => if b = tableBindings then evalFills fills .nil else .error .undefined
-        | _ => .error .undefined
+        match makeArrayArgs args with
+        | some (dims, c) => makeArray dims c
+        | none => .error .undefined
+      else if f = "let" then evalLet args
       else .error .undefined
     | .cons _ _ => .error .undefined
   /-- evaluate the elements of an argument list, left to right -/
   def evalArgs : Obj → Except Err Obj
-    | .cons a d =>
-      match eval a, evalArgs d with
-      | .ok x, .ok r => .ok (.cons x r)
-      | .error e, _ => .error e
-      | _, .error e => .error e
+    | .cons a d => eval a >>= fun x => evalArgs d >>= fun r => .ok (.cons x r)
     | .nil => .ok .nil
+    | _ => .error .undefined
+  /-- exactly two operands, evaluated left to right -/
+  def evalTwo : Obj → Except Err (Obj × Obj)
+    | .cons a (.cons b .nil) => eval a >>= fun x => eval b >>= fun y => .ok (x, y)
+    | _ => .error .undefined
+  /-- `(let ((table (make-hash-table))) fills… table)` -/
+  def evalLet : Obj → Except Err Obj
+    | .cons b fills => if b = tableBindings then evalFills fills .nil else .error .undefined
     | _ => .error .undefined
   /-- run the `(setf (gethash k table) v)` forms on the table built so far; the last form must be
       the variable `table` -/
@@ -227,10 +224,7 @@ mutual
     | .cons (.sym "table") .nil, acc => .ok (.hash acc)
     | .cons (.cons (.sym "setf") (.cons (.cons (.sym "gethash") (.cons k (.cons (.sym "table") .nil)))
         (.cons v .nil))) r, acc =>
-      match eval k, eval v with
-      | .ok k', .ok v' => evalFills r (hput k' v' acc)
-      | .error e, _ => .error e
-      | _, .error e => .error e
+      eval k >>= fun k' => eval v >>= fun v' => evalFills r (hput k' v' acc)
     | _, _ => .error .undefined
 end
 
